@@ -206,3 +206,33 @@ def c11_parent() -> str:
     app = context.get_current_app()
     child = app.get_task(TaskId(__name__, "c11_slow"))
     return child("ok", 0.4).result
+
+# ---- C18 probes -------------------------------------------------------------------------------
+WF_LOG: list = []
+
+
+def wf_probe(tag: str, n: int = 2) -> list:
+    """Body issuing n deterministic random numbers through the task's own workflow helper."""
+    from pynenc import context
+
+    app = context.get_current_app()
+    t = app.get_task(__import__("pynenc.identifiers.task_id", fromlist=["TaskId"]).TaskId(__name__, "wf_probe"))
+    vals = [t.wf.random() for _ in range(n)]
+    WF_LOG.append((tag, t.invocation.workflow.workflow_id, vals))
+    return vals
+
+
+# ---- C18 scripted workflow bodies (see harness/c18_probe.py) ----------------------------------
+def wf_script(app_id: str, tag: str, script: list, fail_after: list | None = None) -> list:
+    """Performs `script` ("r" random, "u" uuid, "t" utc_now, ["s", key, child_script] execute_task) through its
+    own `wf` helper and returns what it was given; attempt i raises after fail_after[i] operations."""
+    from harness import c18_probe
+
+    return c18_probe.run_script("wf_script", app_id, tag, script, fail_after)
+
+
+def wf_child(app_id: str, tag: str, script: list) -> list:
+    """Sub-task launched by `wf_script` through `wf.execute_task`; runs its own script when executed."""
+    from harness import c18_probe
+
+    return c18_probe.run_script("wf_child", app_id, tag, script, None)
